@@ -51,6 +51,32 @@ CLAIMED.update({
    text="Decides the static part: every attribute/item store, delete, setattr and mutating call whose receiver is process-wide (module variables, class attributes, class-level containers, fields of shared instances - least fixpoint) and that is reachable from the public API is construction of an unpublished object, a keyed memo, an argument-independent and completely published lazy memo, lock-protected, or guarded by a feature the property excludes; every other write is reported with its site. The 15 sites reported on today's tree are genuine (each confirmed with a one-preemption schedule A|B|A against the real code, scripts under triage/witness) and are listed as known findings; any additional unsynchronised shared write, temporary override, per-call value on a singleton or partially published cache is a new VIOLATION. Does not enumerate interleavings.",
    note="Class-based ownership with two instance-level refinements (fresh local from a constructor call; objects reachable only through a reported publication). Two checked exemptions: settings.NORMALIZE=True on the default Settings; cached values whose argument-dependent part has no reader (_wordchars, _splitters).", ref="DESIGN.md §4 C20"),
 })
+CLAIMED.update({
+ "C01": dict(cat="other", tech="regex-AST / linear-form agreement, table agreement, guard truth tables (ast, re._parser)",
+   text="Decides structural necessary conditions only: the timestamp regexes have the shape ^-?(10 digits)(3 digits)?(3 digits)? and get_date_from_timestamp feeds group 1 alone to fromtimestamp and computes microsecond = 1000*g2 + g3 (linear form extracted); the %f recovery pads to the 6 digits the microsecond group allows; the month/weekday names the translator emits are exactly the patched strptime tables and every English name/3-letter abbreviation maps to itself in both NORMALIZE modes; no correction stage is enabled for a complete four-digit-year date under any PREFER_* setting (with or without a clock time). Does NOT decide the round trip of arbitrary datetimes through tokenisation and strptime.",
+   note="Partial by nature (see DESIGN): the calendar round trip quantifies over values.", ref="DESIGN.md §4 C01"),
+ "C05": dict(cat="other", tech="dead-entry analysis of vocabulary tables against the code-extracted pre-lookup rewriting (ast-extracted model + regex evaluation of table patterns on table strings)",
+   text="Decides, exhaustively over 504 locales x NORMALIZE on/off (39k name instances): every month/weekday name listed with a single meaning still contains a dictionary key of that meaning after sanitize -> numeral translation -> NFKD normalisation -> simplifications (all extracted from the code each run), is not shadowed by a hard-coded token or lost in the normalised dictionary's conflict policy, and is not torn apart by a counted relative pattern; vocabulary alternations are built longest-first. 119 entries fail today (fr 'sept', vi 'Tháng năm', Indic/Thai/Burmese abbreviations that lose a combining mark, ...); each was confirmed against the real parser and is a KNOWN-FINDING. Does not decide tokenisation of multi-word names or the weekday date arithmetic; names containing numerals are not decided.",
+   note="Model parameters are extracted and conformance-checked (exit 2 on a shape change). Trusted: regex package, unicodedata.", ref="DESIGN.md §4 C05"),
+ "C06": dict(cat="other", tech="grammar membership of table keys under the extracted acceptor + shadowing analysis (ast-extracted model, regex evaluation on table strings)",
+   text="Decides, over all 504 locales: every canonical relative key (13.9k, with \\1 instantiated by integers and a decimal) is accepted by the freshness parser's own word filter and yields a (count, unit) under its PATTERN; every counted pattern compiles the way the code compiles it, in both modes, with the number as capturing group 1; every single-meaning fixed phrase (19.8k instances) is not shadowed after the extracted rewriting and is not split by a counted pattern of its locale. 7 findings remain (lo 'today' reads as March; id 'minggu ini/lalu/depan'), confirmed against the real parser, KNOWN-FINDING. Does not decide equality of the resulting datetimes.",
+   note="Same model as C05.", ref="DESIGN.md §4 C06"),
+ "C07": dict(cat="other", tech="table agreement + guard facts + def-use plumbing (ast)",
+   text="Decides: the six-order tables agree letter by letter (chart_list components, date_order_chart directives, no-spaces per-order tables and their sort keys, numeric directive table); all 504 locales carry a valid date_order or none; the locale's order is stored into DATE_ORDER only under PREFER_LOCALE_DATE_ORDER and 'DATE_ORDER not in the caller's settings', with the saved order as fallback, before the parse call that receives the same settings; ordered_num_directives is built from resolve_date_order(settings.DATE_ORDER, lst=True) and drives the numeric assignment loop; the year is pinned only by a four-character token taken as year. Does not decide which field a concrete token lands in.",
+   note="", ref="DESIGN.md §4 C07"),
+ "C13": dict(cat="other", tech="CFG reachability between yield groups, keyword/attribute plumbing, guard facts (ast + CFG)",
+   text="Decides: _get_applicable_locales can never yield a default-language locale before a requested one, nor a requested one before a previous one (reachability on the CFG); previous locales only under try_previous_locales, defaults only when DEFAULT_LANGUAGES is set; the loader is called with exactly the constructor's languages/locales/region/use_given_order, which parse() forwards by keyword; requested locales are yielded only if applicable; the reported locale is the shortname of the locale being tried and the first valid result returns; the loader sorts by language_order.index only when use_given_order is false and rejects unknown languages/locales before its first yield. Does not decide applicability or equality with single-language runs.",
+   note="", ref="DESIGN.md §4 C13"),
+ "C14": dict(cat="other", tech="CFG dominance + plumbing + directive-table agreement (ast + CFG)",
+   text="Decides: in get_date_data the given formats are applied to the raw argument before sanitising and before any locale work, and a match is returned; parse_with_formats walks the formats in order with strptime, continues on mismatch and returns the first match; month/day completion and the current-year default are each guarded by 'the format lacks that part', and the table deciding that agrees with strptime's directive semantics; the localized path translates with keep_formatting=True, the heuristic parsers with False. Does not decide the strptime round trip.",
+   note="", ref="DESIGN.md §4 C14"),
+ "C15": dict(cat="other", tech="table well-formedness + ordered-rewrite interference analysis + plumbing (ast, table evaluation)",
+   text="Decides: the Jalali month table has 12 entries whose stored index equals their position (the code derives the month number from the position), lengths 31x6/30x5/29; the digit table is the Unicode-value bijection onto 0..9; spelled days cover 0..31 without duplicates; to_latin's step order (extracted) and the ordered list of 72 str.replace pairs contain no earlier pattern that is a proper substring of a later one with a different replacement, and no spelled day contains a suffix the ordinal strip removes; year/month/day reach to_gregorian by keyword and the clock fields are carried over unchanged; the Hijri wrapper forwards the same keywords. Does not decide the conversion arithmetic (convertdate / hijridate).",
+   note="", ref="DESIGN.md §4 C15"),
+ "C18": dict(cat="other", tech="taint analysis (source: raw date string, sanitiser: numeral translation) to regex-literal sinks + regex-AST digit-class query (ast, re._parser)",
+   text="Decides the digit-script clause: every regex literal applied to the date string before Locale._translate_numerals (13 sites: sanitize_date, sanitize_spaces, the timestamp regexes) is free of constructs that separate ASCII digits from other Unicode decimal digits; numeral translation dominates all vocabulary work in translate/is_applicable and converts exactly the str.isdecimal runs with their width preserved. The whitespace clause is NOT decided (no sound structural rule; see DESIGN).",
+   note="Table-driven timezone regexes are outside R1.", ref="DESIGN.md §4 C18"),
+})
 NA_REASON = {}
 
 def main():
